@@ -2,6 +2,7 @@ import BbRe.Model.LockSkel
 import BbRe.Model.LockPile
 import BbRe.Lemmas.LockSkel
 import BbRe.Lemmas.LockSkelPile
+import BbRe.Lemmas.LockSkelRevalidate
 /-!
 # C14 — no call leaves a lock behind; concurrent calls never deadlock
 
@@ -173,6 +174,50 @@ theorem pile_system_can_proceed (ts : List Nat) (hne : ts ≠ [])
     (hclosed : ∀ l u, T l = some u → u ∈ ts) :
     ∃ t ∈ ts, awaited (s t) = none ∨ ∃ l, awaited (s t) = some l ∧ T l = none :=
   BbRe.Lemmas.LockPile.pile_system_can_proceed ts hne old news T0 s T hwf honly hr hclosed
+
+/-! ### `getAndLockIfDirectory`: revalidation after a back-tracking acquisition
+
+`Lemmas/LockSkelRevalidate.lean` models the retry loop of
+`inMemoryDirectoryContents.getAndLockIfDirectory` (in_memory_prepopulated_directory.go
+l.229-253) for one thread against a lock table, the mutable `entriesMap` of the parent
+directory (which the environment may change only while the thread does not hold the parent
+lock) and the thread's `LockPile`; `LockPile.Lock` enters as its proved specification
+(`pile_post`, via `lockSpec_of_lock`). -/
+open BbRe.Lemmas.Revalidate in
+/-- **Revalidation is sound.** Whatever the number of retries and whatever the other threads
+do: when `getAndLockIfDirectory` returns `(entry, true)`, `entry` is at that moment still the
+child stored under the name, the parent lock is held, and if the child is a directory its
+lock is held by the thread and recorded in the pile; when it returns `(nil, false)` the name
+is absent and the parent lock is still held. -/
+theorem revalidate_sound {c : Cfg} {s0 s : State} (h0 : Start c s0) (hr : Reach c s0 s) :
+    (∀ e, s.pc = .done (some e) →
+        s.E c.name = some e ∧ s.T c.P = some c.t ∧
+        ∀ l, e.dirLock = some l → s.T l = some c.t ∧ l ∈ locks s.pile) ∧
+    (s.pc = .done none → s.E c.name = none ∧ s.T c.P = some c.t) :=
+  BbRe.Lemmas.Revalidate.revalidate_sound h0 hr
+
+open BbRe.Lemmas.Revalidate in
+/-- Retries leak nothing: at every loop head the pile is the initial one, on return it is the
+initial pile plus the child directory's lock (if a directory is returned). -/
+theorem revalidate_pile {c : Cfg} {s0 s : State} (h0 : Start c s0) (hr : Reach c s0 s) :
+    (s.pc = .fetch → s.pile.Perm c.p0) ∧
+    (∀ e, s.pc = .lockChild e → s.pile.Perm c.p0) ∧
+    (s.pc = .done none → s.pile.Perm c.p0) ∧
+    (∀ e, s.pc = .done (some e) → e.dirLock = none → s.pile.Perm c.p0) ∧
+    (∀ e l, s.pc = .done (some e) → e.dirLock = some l → s.pile.Perm (⟨l, 0⟩ :: c.p0)) :=
+  BbRe.Lemmas.Revalidate.revalidate_pile h0 hr
+
+open BbRe.Lemmas.Revalidate in
+/-- Every call of `LockPile.Lock` made by the loop meets the precondition of `pile_post`. -/
+theorem revalidate_lock_pre {c : Cfg} {s0 s : State} (h0 : Start c s0)
+    (hn : (locks c.p0).Nodup)
+    (hall : ∀ h ∈ c.p0, s0.T h.lock = some c.t)
+    (honly : ∀ x, s0.T x = some c.t → x ∈ locks c.p0)
+    (hr : Reach c s0 s) :
+    (∀ h ∈ s.pile, s.T h.lock = some c.t) ∧
+    (∀ x, s.T x = some c.t → x ∈ locks s.pile) ∧
+    (∀ e l, s.pc = .lockChild e → e.dirLock = some l → WfStart c.t s.pile [l] s.T) :=
+  BbRe.Lemmas.Revalidate.revalidate_lock_pre h0 hn hall honly hr
 
 /-! Non-vacuity of (b): see the `Ex` section at the end of `Lemmas/LockSkelPile.lean`
 (thread 0 holds pile `[10]`, calls `Lock(20, 30, 10)`, the `TryLock` of 30 fails, 10 and 20
